@@ -69,6 +69,13 @@ func (r *Run) Eval(n int) {
 	r.mu.Unlock()
 }
 
+// Evals returns the number of evaluations so far (progress indicator for watchdogs).
+func (r *Run) Evals() int64 {
+	r.mu.Lock()
+	defer r.mu.Unlock()
+	return r.evals
+}
+
 // Distinct records a non-trivial case by its identity key; duplicates collapse.
 func (r *Run) Distinct(key string) {
 	h := fnv.New64a()
